@@ -73,10 +73,10 @@ package queue
 //@ func (*Queue).Each
 //@   role f yield
 //@   requires inv(q)
-//@   ensures  [C07] trace: exists m int :: 0 <= m && m <= q.n && ncalls(f) == old(ncalls(f)) + m
-//@+       && (forall i int :: 0 <= i && i < m ==> callarg(f, old(ncalls(f)) + i) == view(q, i))
-//@+       && (forall i int :: 0 <= i && i < m - 1 ==> callret(f, old(ncalls(f)) + i))
-//@+       && (m < q.n ==> m > 0 && !callret(f, old(ncalls(f)) + m - 1))
+//@   ensures  [C07] count: ncalls(f) >= old(ncalls(f)) && ncalls(f) - old(ncalls(f)) <= q.n
+//@   ensures  [C07] args: forall i int :: 0 <= i && i < ncalls(f) - old(ncalls(f)) ==> callarg(f, old(ncalls(f)) + i) == view(q, i)
+//@   ensures  [C07] went: forall i int :: 0 <= i && i < ncalls(f) - old(ncalls(f)) - 1 ==> callret(f, old(ncalls(f)) + i)
+//@   ensures  [C07] stopped: ncalls(f) - old(ncalls(f)) < q.n ==> ncalls(f) > old(ncalls(f)) && !callret(f, ncalls(f) - 1)
 //@   modifies calls(f)
 //@   loop 1: invariant pos: q.n > 0 ==> cur == wrap(q.head + it1, len(q.vs))
 //@   loop 1: invariant count: ncalls(f) == old(ncalls(f)) + it1
